@@ -48,7 +48,8 @@ def _stub_cls():
 
         def run(self, betaE, alt, Eshow100PeV, lat, long, cloudf=None):
             if Eshow100PeV < 0:
-                raise RuntimeError(f"injected failure at event beta={betaE}")
+                # the kind of failure is encoded in the marker value: -1 RuntimeError, -2 IndexError, -3 StopIteration, ...
+                raise FAULT_TYPES[int(round(-Eshow100PeV)) - 1](f"injected failure at event beta={betaE}")
             a = float(betaE) * 1000.0 + float(alt) * 7.0 + float(Eshow100PeV) * 13.0 + float(lat) * 17.0 + float(long) * 19.0
             if cloudf:  # like the real kernel, the cloud model is consulted once per event, at the event's site
                 a += 23.0 * float(cloudf(lat, long))
@@ -57,6 +58,7 @@ def _stub_cls():
     return StubKernel
 
 
+FAULT_TYPES = [RuntimeError, IndexError, StopIteration, KeyError, ZeroDivisionError, FloatingPointError]
 _STUB = None
 
 
@@ -70,14 +72,14 @@ def stub_kernel():
     return _STUB(525.0)
 
 
-def batch(n, fail_at=None):
+def batch(n, fail_at=None, fault=0):
     # deliberately NOT monotone in any argument (and not a self-inverse permutation of a sorted batch): a sort /
     # re-ordering inside the batch call with a wrong un-permutation must be visible
     b = np.array([0.02 + 0.001 * ((i * 7919 + 13) % 1009) for i in range(n)])
     a = np.array([1.0 + 0.01 * ((i * 104729 + 7) % 997) for i in range(n)])
     E = np.array([0.5 + 0.25 * ((i * 1299709 + 3) % 991) for i in range(n)])
     if fail_at is not None:
-        E[fail_at] = -1.0
+        E[fail_at] = -1.0 - fault
     la = np.array([0.1 * i for i in range(n)])
     lo = np.array([0.2 * i for i in range(n)])
     return b, a, E, la, lo
@@ -87,12 +89,13 @@ class SiteCloud:
     """cloud callback whose value depends on the site; optionally fails at one site (fault injection through the
     cloud lookup rather than through the kernel)"""
 
-    def __init__(self, fail_lat=None):
+    def __init__(self, fail_lat=None, fault=0):
         self.fail_lat = fail_lat
+        self.fault = fault
 
     def __call__(self, lat, long, *a, **k):
         if self.fail_lat is not None and float(lat) == self.fail_lat:
-            raise RuntimeError(f"injected cloud-lookup failure at lat={lat}")
+            raise FAULT_TYPES[self.fault](f"injected cloud-lookup failure at lat={lat}")
         return np.single(0.5 + float(lat) - 0.25 * float(long))
 
 
@@ -280,16 +283,23 @@ def shared_state_hash(k, cl):
     return history.canon(k), history.canon(cl) if cl is not None else "", history.canon(g)
 
 
+def fault_setup(n, fail_at):
+    """fail_at: None | int (kernel fault) | "k<pos>:<type>" kernel fault of a given exception type | "c<pos>[:<type>]" fault
+    in the cloud lookup of event pos"""
+    if isinstance(fail_at, str):
+        kind = fail_at[0]
+        body, _, ft = fail_at[1:].partition(":")
+        pos, ft = int(body), int(ft or 0)
+        if kind == "c":
+            args = batch(n)
+            return args, SiteCloud(fail_lat=float(args[3][pos]), fault=ft)
+        return batch(n, fail_at=pos, fault=ft), (SiteCloud() if (n % 2 == 1) else None)
+    return batch(n, fail_at=fail_at), (SiteCloud() if (n % 2 == 1) else None)
+
+
 def _plumb_job(a):
     n, ps, sch, w, cs, fail_at, cap = a
-    cloud_fault = isinstance(fail_at, str)
-    if cloud_fault:  # "c<pos>": the failure is injected in the cloud lookup of event pos
-        pos = int(fail_at[1:])
-        args = batch(n)
-        cl = SiteCloud(fail_lat=float(args[3][pos]))
-    else:
-        args = batch(n, fail_at=fail_at)
-        cl = SiteCloud() if (n % 2 == 1) else None
+    args, cl = fault_setup(n, fail_at)
     nparts = math.ceil(n / (ps or 100))
     exp = None if fail_at is not None else sequential(stub_kernel(), args, cl)
     nex, outcomes, bad, capped = explore_config(stub_kernel, args, cl, sch, w, cs, ps, exp, expect_raise=fail_at is not None, cap=cap)
@@ -327,6 +337,11 @@ def run(ctx):
                 jobs.append((n, ps, sch, w, cs, pos, 600))
                 if sch != "processes" or w == 2:
                     jobs.append((n, ps, sch, w, cs, f"c{pos}", 600))
+                # every exception type of the alphabet, through the kernel and through the cloud lookup
+                if w <= 2 and cs == 1 and (n <= 4 or n > 7):
+                    for ft in range(1, len(FAULT_TYPES)):
+                        jobs.append((n, ps, sch, w, cs, f"k{pos}:{ft}", 200))
+                        jobs.append((n, ps, sch, w, cs, f"c{pos}:{ft}", 200))
     res = par.pmap(_plumb_job, jobs)
     nf = 0
     for r in res:
@@ -338,8 +353,8 @@ def run(ctx):
         else:
             nf += r["nex"]
             fa = r["fail_at"]
-            fpos = int(fa[1:]) if isinstance(fa, str) else fa
-            ctx.tick(r["nex"], ("fault", isinstance(fa, str), r["n"], r["ps"], fpos if r["n"] <= 7 else min(fpos, 101), r["sch"], r["w"]))
+            fpos = int(fa[1:].partition(":")[0]) if isinstance(fa, str) else fa
+            ctx.tick(r["nex"], ("fault", str(fa)[0] if isinstance(fa, str) else "k", str(fa).partition(":")[2], r["n"], r["ps"], fpos if r["n"] <= 7 else min(fpos, 101), r["sch"], r["w"]))
             clause, exp = "failure_surfaces_as_error", "the batch call raises"
         if r["capped"]:
             ctx.cap(f"plumbing n={r['n']} ps={r['ps']} {r['sch']} w={r['w']} cs={r['cs']} fail_at={r['fail_at']}: stopped after {r['nex']} executions")
@@ -432,12 +447,7 @@ def replay(case):
     k = case["kind"]
     if k == "plumb":
         fa = case["fail_at"]
-        if isinstance(fa, str):
-            args = batch(case["n"])
-            cl = SiteCloud(fail_lat=float(args[3][int(fa[1:])]))
-        else:
-            args = batch(case["n"], fail_at=fa)
-            cl = SiteCloud() if (case["n"] % 2 == 1) else None
+        args, cl = fault_setup(case["n"], fa)
         ch = schedule.Chooser(case["choices"])
         o = run_batch(stub_kernel(), args, cl, case["sch"], case["w"], case["cs"], case["ps"], ch)
         if fa is not None:
